@@ -95,7 +95,9 @@ TEMPLATE = r'''
   at call(Refilter) assert [refilters-its-own-clone-with-that-filter] (and (= $recv {dst}) (= $0 lastFilter) listOK)
   ghost refiltered : Bool := false
   at call(Refilter) set refiltered := true
-  exit [refilters-unless-the-source-cache-could-not-be-listed] (or refiltered (not listOK))
+  ghost listed : Bool := false
+  at call(List) set listed := true
+  exit [always-lists-the-source-and-refilters-unless-the-listing-failed] (and listed (or refiltered (not listOK)))
   at go() assert [opt:callbacks-refilter-serially-on-the-monitor-goroutine] false
 @*/
 /*@ func join.@F@With$2
